@@ -146,6 +146,37 @@ func ruleCryptoConstants(c *core.Ctx) {
 				if t.n != 50 {
 					o.Fail("the MD5 re-hash loop runs %d times, the standard says 50", t.n)
 				}
+				// each round hashes the first n bytes of the previous digest, n = key length
+				// (Algorithm 2 step (i); computeO and authenticateOwner must agree with each other)
+				inputs := 0
+				for _, cs := range core.CallsIn(info, l, false) {
+					var arg ast.Expr
+					switch {
+					case strings.HasSuffix(cs.Key, ".Write") && len(cs.Call.Args) == 1:
+						arg = cs.Call.Args[0]
+					case (cs.Key == "crypto/md5.Sum") && len(cs.Call.Args) == 1:
+						arg = cs.Call.Args[0]
+					default:
+						continue
+					}
+					inputs++
+					e := ast.Unparen(arg)
+					if id, ok := e.(*ast.Ident); ok {
+						if obj := info.ObjectOf(id); obj != nil {
+							ds := core.AssignsTo(info, fn.Decl, obj)
+							if len(ds) == 1 {
+								if as, ok := ds[0].(*ast.AssignStmt); ok && len(as.Rhs) == 1 {
+									e = ast.Unparen(as.Rhs[0])
+								}
+							}
+						}
+					}
+					sl, ok := e.(*ast.SliceExpr)
+					if !ok || sl.Low != nil || sl.High == nil || !strings.HasSuffix(core.ExprStr(sl.High), ".keyBytes") {
+						o.FailAt(fn.Site(cs.Call, ""), "%s: a re-hash round hashes %s; it must hash only the first keyBytes bytes of the previous digest", c.Prog.Pos(cs.Call.Pos()), c.Prog.Src(arg))
+					}
+				}
+				o.Require(inputs == 1, "expected one hash input per round, found %d", inputs)
 				// guarded by R >= 3
 				g := fn.Graph()
 				v := g.VertexOf(loopFirstNode(l))
